@@ -14,9 +14,9 @@ Open Scope N_scope.
 (* ---- measurements ------------------------------------------------------------------------- *)
 Inductive tq := Sync | Unsync.
 
-(* m_value: BI/BOS 0|1, DBI 0..3 (DoubleBit::to_byte), CTR/FCTR u32, AI/AOS/FAI the f64 bit pattern;
-   m_bytes: the octets of an octet string (empty for every other type) *)
-Record meas := mk_meas { m_value : N; m_flags : N; m_time : option (tq * N); m_bytes : list N }.
+(* cm_value: BI/BOS 0|1, DBI 0..3 (DoubleBit::to_byte), CTR/FCTR u32, AI/AOS/FAI the f64 bit pattern;
+   cm_bytes: the octets of an octet string (empty for every other type) *)
+Record cmeas := mk_cmeas { cm_value : N; cm_flags : N; cm_time : option (tq * N); cm_bytes : list N }.
 
 Definition tq_eqb (a b : tq) : bool :=
   match a, b with Sync, Sync => true | Unsync, Unsync => true | _, _ => false end.
@@ -28,14 +28,14 @@ Definition mtype_eqb (a b : mtype) : bool :=
   end.
 
 Definition find_recipe (g v : N) : option recipe :=
-  find (fun r => (r_group r =? g) && (r_var r =? v)) recipes.
+  find (fun r => (rc_group r =? g) && (rc_var r =? v)) recipes.
 
 (* ---- little endian ------------------------------------------------------------------------ *)
-Fixpoint le_bytes (n : nat) (x : N) : list N :=
-  match n with O => [] | S k => x mod 256 :: le_bytes k (x / 256) end.
+Fixpoint le_enc (n : nat) (x : N) : list N :=
+  match n with O => [] | S k => x mod 256 :: le_enc k (x / 256) end.
 
-Fixpoint le_value (l : list N) : N :=
-  match l with [] => 0 | b :: r => b + 256 * le_value r end.
+Fixpoint le_dec (l : list N) : N :=
+  match l with [] => 0 | b :: r => b + 256 * le_dec r end.
 
 Definition wwidth (w : wtype) : nat :=
   match w with WU8 => 1 | WU16 => 2 | WU32 => 4 | WI16 => 2 | WI32 => 4 | WF32 => 4 | WF64 => 8 | WTime48 => 6 end%nat.
@@ -48,19 +48,19 @@ Definition without (flags mask : N) : N := N.ldiff flags mask.
 Definition with_over_range (flags : N) : N := N.lor flags over_range_mask.
 
 (* impl WireFlags: the value bits of the binary types are folded into bits 7 (and 6) *)
-Definition wire_flags (t : mtype) (m : meas) : N :=
+Definition wire_flags (t : mtype) (m : cmeas) : N :=
   match wire_flags_of t with
-  | WfRaw => m_flags m
-  | WfBit7 => m_flags m mod 128 + 128 * (m_value m mod 2)
-  | WfBits76 => m_flags m mod 64 + 64 * (m_value m mod 4)
+  | WfRaw => cm_flags m
+  | WfBit7 => cm_flags m mod 128 + 128 * (cm_value m mod 2)
+  | WfBits76 => cm_flags m mod 64 + 64 * (cm_value m mod 4)
   end.
 
 (* ---- AnalogConversions -------------------------------------------------------------------- *)
 Definition guard_fires (g : conv_guard) (lo hi v : N) : bool :=
   match g with
-  | GNan => f64_is_nan v
-  | GBelowMin => f64_lt v lo
-  | GAboveMax => f64_gt v hi
+  | GNan => fb64_is_nan v
+  | GBelowMin => fb64_lt v lo
+  | GAboveMax => fb64_gt v hi
   end.
 
 Fixpoint first_guard (gs : list (conv_guard * conv_sat)) (lo hi v : N) : option conv_sat :=
@@ -69,10 +69,10 @@ Fixpoint first_guard (gs : list (conv_guard * conv_sat)) (lo hi v : N) : option 
   | (g, s) :: r => if guard_fires g lo hi v then Some s else first_guard r lo hi v
   end.
 
-Definition conv_int (gs : list (conv_guard * conv_sat)) (lo hi : Z) (lob hib : N) (m : meas) : N * Z :=
-  match first_guard gs lob hib (m_value m) with
-  | Some s => (with_over_range (m_flags m), match s with SZero => 0%Z | SMin => lo | SMax => hi end)
-  | None => (m_flags m, f64_to_int lo hi (m_value m))
+Definition conv_int (gs : list (conv_guard * conv_sat)) (lo hi : Z) (lob hib : N) (m : cmeas) : N * Z :=
+  match first_guard gs lob hib (cm_value m) with
+  | Some s => (with_over_range (cm_flags m), match s with SZero => 0%Z | SMin => lo | SMax => hi end)
+  | None => (cm_flags m, fb64_to_int lo hi (cm_value m))
   end.
 
 Definition i16_min : Z := (-32768)%Z.
@@ -80,53 +80,53 @@ Definition i16_max : Z := 32767%Z.
 Definition i32_min : Z := (-2147483648)%Z.
 Definition i32_max : Z := 2147483647%Z.
 
-Definition to_i16 (m : meas) : N * Z := conv_int to_i16_guards i16_min i16_max f64_i16_min f64_i16_max m.
-Definition to_i32 (m : meas) : N * Z := conv_int to_i32_guards i32_min i32_max f64_i32_min f64_i32_max m.
+Definition to_i16 (m : cmeas) : N * Z := conv_int to_i16_guards i16_min i16_max fb64_i16_min fb64_i16_max m.
+Definition to_i32 (m : cmeas) : N * Z := conv_int to_i32_guards i32_min i32_max fb64_i32_min fb64_i32_max m.
 
-Definition to_f32 (m : meas) : N * N :=
-  match first_guard to_f32_guards f64_f32_min f64_f32_max (m_value m) with
-  | Some s => (with_over_range (m_flags m), match s with SZero => 0 | SMin => f32_min_bits | SMax => f32_max_bits end)
-  | None => (m_flags m, f64_to_f32 (m_value m))
+Definition to_f32 (m : cmeas) : N * N :=
+  match first_guard to_f32_guards fb64_f32_min fb64_f32_max (cm_value m) with
+  | Some s => (with_over_range (cm_flags m), match s with SZero => 0 | SMin => fb32_min_bits | SMax => fb32_max_bits end)
+  | None => (cm_flags m, fb64_to_f32 (cm_value m))
   end.
 
 (* the (flags, raw value field) pair of `let (_wire_flags, _wire_value) = self.to_xxx()` *)
-Definition conv_of (tv : to_value) (m : meas) : N * N :=
+Definition conv_of (tv : to_value) (m : cmeas) : N * N :=
   match tv with
   | ToValI16 => (fst (to_i16 m), z_to_u 16 (snd (to_i16 m)))
   | ToValI32 => (fst (to_i32 m), z_to_u 32 (snd (to_i32 m)))
   | ToValF32 => to_f32 m
-  | ToValRaw => (m_flags m, m_value m)
-  | ToValAsU16 => (m_flags m, m_value m mod 65536)
+  | ToValRaw => (cm_flags m, cm_value m)
+  | ToValAsU16 => (cm_flags m, cm_value m mod 65536)
   end.
 
 (* ---- one object: measurement -> field bytes ------------------------------------------------ *)
 Definition time_stamp (t : option (tq * N)) : N :=
   match t with Some (_, x) => x | None => 0 end.        (* Option<Time> -> Timestamp: None = Unsynchronized(0) *)
 
-Definition field_value (r : recipe) (m : meas) (diff : N) (f : fld) : N :=
+Definition field_value (r : recipe) (m : cmeas) (diff : N) (f : fld) : N :=
   match f with
-  | FFlags => match r_to_flags r with
-              | Some ToFlagsWire => wire_flags (r_type r) m
-              | Some ToFlagsRaw => m_flags m
-              | Some ToFlagsConv => match r_to_value r with Some tv => fst (conv_of tv m) | None => m_flags m end
+  | FFlags => match rc_to_flags r with
+              | Some ToFlagsWire => wire_flags (rc_type r) m
+              | Some ToFlagsRaw => cm_flags m
+              | Some ToFlagsConv => match rc_to_value r with Some tv => fst (conv_of tv m) | None => cm_flags m end
               | None => 0
               end
-  | FValue => match r_to_value r with Some tv => snd (conv_of tv m) | None => 0 end
-  | FTime => match r_to_time r with
-             | Some ToTimeInto => time_stamp (m_time m)
+  | FValue => match rc_to_value r with Some tv => snd (conv_of tv m) | None => 0 end
+  | FTime => match rc_to_time r with
+             | Some ToTimeInto => time_stamp (cm_time m)
              | Some ToTimeCto => diff
              | None => 0
              end
   end.
 
-Definition encode_obj (r : recipe) (m : meas) (diff : N) : list N :=
-  flat_map (fun fw => le_bytes (wwidth (snd fw)) (field_value r m diff (fst fw))) (r_layout r).
+Definition encode_obj (r : recipe) (m : cmeas) (diff : N) : list N :=
+  flat_map (fun fw => le_enc (wwidth (snd fw)) (field_value r m diff (fst fw))) (rc_layout r).
 
 (* ---- one object: field bytes -> measurement ------------------------------------------------ *)
 Fixpoint read_fields (l : list (fld * wtype)) (bs : list N) : list (fld * wtype * N) :=
   match l with
   | [] => []
-  | (f, w) :: r => (f, w, le_value (firstn (wwidth w) bs)) :: read_fields r (skipn (wwidth w) bs)
+  | (f, w) :: r => (f, w, le_dec (firstn (wwidth w) bs)) :: read_fields r (skipn (wwidth w) bs)
   end.
 
 Definition fld_eqb (a b : fld) : bool :=
@@ -148,32 +148,32 @@ Definition cto_add (cto : option (tq * N)) (off : N) : option (tq * N) :=
   | Some (q, t) => if timestamp_max - t <? off then None else Some (q, t + off)
   end.
 
-Definition decode_obj (r : recipe) (cto : option (tq * N)) (bs : list N) : meas :=
-  let fs := read_fields (r_layout r) bs in
+Definition decode_obj (r : recipe) (cto : option (tq * N)) (bs : list N) : cmeas :=
+  let fs := read_fields (rc_layout r) bs in
   let fraw := raw_of FFlags fs in
-  let flags := match r_from_flags r with FromFlagsNew => fraw | FromFlagsOnline => online_flags end in
+  let flags := match rc_from_flags r with FromFlagsNew => fraw | FromFlagsOnline => online_flags end in
   let value :=
-    match r_from_value r with
+    match rc_from_value r with
     | FromState => fraw / 128
     | FromDoubleState => fraw / 64
     | FromValRaw => raw_of FValue fs
     | FromValAsU32 => raw_of FValue fs
     | FromValAsF64 =>
         match get_field FValue fs with
-        | Some (WI16, x) => f64_of_Z (u_to_z 16 x)
-        | Some (WI32, x) => f64_of_Z (u_to_z 32 x)
-        | Some (WF32, x) => f32_to_f64 x
+        | Some (WI16, x) => fb64_of_Z (u_to_z 16 x)
+        | Some (WI32, x) => fb64_of_Z (u_to_z 32 x)
+        | Some (WF32, x) => fb32_to_f64 x
         | Some (_, x) => x
         | None => 0
         end
     end in
   let time :=
-    match r_from_time r with
+    match rc_from_time r with
     | FromTimeNone => None
     | FromTimeSync => Some (Sync, raw_of FTime fs mod (timestamp_max + 1))
     | FromTimeCto => cto_add cto (raw_of FTime fs)
     end in
-  mk_meas value flags time [].
+  mk_cmeas value flags time [].
 
 (* ---- structured object headers -------------------------------------------------------------- *)
 Inductive hdr :=
@@ -181,11 +181,11 @@ Inductive hdr :=
 | HRange (g v start stop : N) (payload : list N)       (* qualifier 0x01 *)
 | HPrefix (g v : N) (items : list (N * list N)).       (* qualifier 0x28: (index, object bytes) *)
 
-Definition le16b (x : N) : list N := le_bytes 2 x.
+Definition le16b (x : N) : list N := le_enc 2 x.
 
 Definition serialize_hdr (h : hdr) : list N :=
   match h with
-  | HCto v t => [51; v; 7; 1] ++ le_bytes 6 t
+  | HCto v t => [51; v; 7; 1] ++ le_enc 6 t
   | HRange g v s e payload => [g; v; 1] ++ le16b s ++ le16b e ++ payload
   | HPrefix g v items =>
       [g; v; 40] ++ le16b (N.of_nat (length items)) ++ flat_map (fun it => le16b (fst it) ++ snd it) items
@@ -194,8 +194,8 @@ Definition serialize_hdr (h : hdr) : list N :=
 Definition serialize (hs : list hdr) : list N := flat_map serialize_hdr hs.
 
 (* ---- outstation: static (range) writer ------------------------------------------------------ *)
-(* a point: index, configured variation (group, var), current value *)
-Record point := mk_point { p_idx : N; p_group : N; p_var : N; p_meas : meas }.
+(* a cpoint: index, configured variation (group, var), current value *)
+Record cpoint := mk_cpoint { cp_idx : N; cp_group : N; cp_var : N; cp_meas : cmeas }.
 
 Definition find_static (g v : N) : option (mtype * write_kind * option (N * N)) :=
   match find (fun x => match x with (_, g', v', _, _) => (g' =? g) && (v' =? v) end) static_vars with
@@ -204,9 +204,9 @@ Definition find_static (g v : N) : option (mtype * write_kind * option (N * N)) 
   end.
 
 (* StaticVariation::promote *)
-Definition promote (g v : N) (m : meas) : N :=
+Definition promote (g v : N) (m : cmeas) : N :=
   match find_static g v with
-  | Some (_, _, Some (v2, mask)) => if without (m_flags m) mask =? online_flags then v else v2
+  | Some (_, _, Some (v2, mask)) => if without (cm_flags m) mask =? online_flags then v else v2
   | _ => v
   end.
 
@@ -214,12 +214,12 @@ Definition is_octets (g : N) : bool := (g =? 110) || (g =? 111).
 
 Inductive witem := WFixed (bs : list N) | WBit (b : N) | WDbit (b : N).
 
-(* what get_write_info(...).write_type writes for one point *)
-Definition static_item (g v : N) (m : meas) : witem :=
-  if is_octets g then WFixed (m_bytes m)
+(* what get_write_info(...).write_type writes for one cpoint *)
+Definition static_item (g v : N) (m : cmeas) : witem :=
+  if is_octets g then WFixed (cm_bytes m)
   else match find_static g v with
-       | Some (_, WkBits, _) => WBit (m_value m mod 2)
-       | Some (_, WkDoubleBits, _) => WDbit (m_value m mod 4)
+       | Some (_, WkBits, _) => WBit (cm_value m mod 2)
+       | Some (_, WkDoubleBits, _) => WDbit (cm_value m mod 4)
        | _ => match find_recipe g v with
               | Some r => WFixed (encode_obj r m 0)
               | None => WFixed []
@@ -261,28 +261,28 @@ Fixpoint range_write (pts : list (N * N * N * witem)) (cur : option whdr) : list
   end.
 
 (* the BTreeMap of the static database iterates in index order *)
-Fixpoint insert_point (p : point) (l : list point) : list point :=
+Fixpoint insert_point (p : cpoint) (l : list cpoint) : list cpoint :=
   match l with
   | [] => [p]
-  | q :: r => if p_idx p <? p_idx q then p :: l else q :: insert_point p r
+  | q :: r => if cp_idx p <? cp_idx q then p :: l else q :: insert_point p r
   end.
-Definition sort_points (l : list point) : list point := fold_right insert_point [] l.
+Definition sort_points (l : list cpoint) : list cpoint := fold_right insert_point [] l.
 
-(* a READ selection: requested variation (0 = the point's configured one) and optional index range *)
+(* a READ selection: requested variation (0 = the cpoint's configured one) and optional index range *)
 Record selection := mk_sel { sel_var : N; sel_range : option (N * N) }.
 
-Definition in_sel (s : selection) (p : point) : bool :=
+Definition in_sel (s : selection) (p : cpoint) : bool :=
   match sel_range s with
   | None => true
-  | Some (a, b) => (a <=? p_idx p) && (p_idx p <=? b)
+  | Some (a, b) => (a <=? cp_idx p) && (cp_idx p <=? b)
   end.
 
-Definition static_entry (s : selection) (p : point) : N * N * N * witem :=
-  let v0 := if sel_var s =? 0 then p_var p else sel_var s in
-  let v := if is_octets (p_group p) then N.of_nat (length (m_bytes (p_meas p))) else promote (p_group p) v0 (p_meas p) in
-  (p_idx p, p_group p, v, static_item (p_group p) v (p_meas p)).
+Definition static_entry (s : selection) (p : cpoint) : N * N * N * witem :=
+  let v0 := if sel_var s =? 0 then cp_var p else sel_var s in
+  let v := if is_octets (cp_group p) then N.of_nat (length (cm_bytes (cp_meas p))) else promote (cp_group p) v0 (cp_meas p) in
+  (cp_idx p, cp_group p, v, static_item (cp_group p) v (cp_meas p)).
 
-Definition write_static (s : selection) (pts : list point) : list hdr :=
+Definition write_static (s : selection) (pts : list cpoint) : list hdr :=
   range_write (map (static_entry s) (filter (in_sel s) (sort_points pts))) None.
 
 (* ---- outstation: event writer ---------------------------------------------------------------- *)
@@ -292,8 +292,8 @@ Definition uses_cto (g v : N) : bool :=
   | None => false
   end.
 
-Definition event_time (m : meas) : tq * N :=
-  match m_time m with Some x => x | None => (Unsync, 0) end.
+Definition event_time (m : cmeas) : tq * N :=
+  match cm_time m with Some x => x | None => (Unsync, 0) end.
 
 (* write_cto: None = Continue::NewHeader, Some d = the 16-bit offset that is written *)
 Definition cto_diff (cto time : tq * N) : option N :=
@@ -302,29 +302,29 @@ Definition cto_diff (cto time : tq * N) : option N :=
   else if cto_max_gap <? snd time - snd cto then None
   else Some ((snd time - snd cto) mod 65536).
 
-Definition event_bytes (g v : N) (m : meas) (diff : N) : list N :=
-  if is_octets g then m_bytes m
+Definition event_bytes (g v : N) (m : cmeas) (diff : N) : list N :=
+  if is_octets g then cm_bytes m
   else match find_recipe g v with Some r => encode_obj r m diff | None => [] end.
 
-Record estate := mk_estate { es_g : N; es_v : N; es_cto : tq * N; es_items : list (N * list N) }.
+Record cestate := mk_cestate { es_g : N; es_v : N; es_cto : tq * N; es_items : list (N * list N) }.
 
-Definition finish_estate (s : estate) : hdr := HPrefix (es_g s) (es_v s) (es_items s).
+Definition finish_estate (s : cestate) : hdr := HPrefix (es_g s) (es_v s) (es_items s).
 
 Definition cto_hdr (time : tq * N) : hdr :=
   HCto (match fst time with Sync => 1 | Unsync => 2 end) (snd time).
 
 (* EventWriter::start_new_header *)
-Definition start_header (idx g v : N) (m : meas) : list hdr * estate :=
+Definition start_header (idx g v : N) (m : cmeas) : list hdr * cestate :=
   let time := event_time m in
   ((if uses_cto g v then [cto_hdr time] else []),
-   mk_estate g v time [(idx, event_bytes g v m 0)]).
+   mk_cestate g v time [(idx, event_bytes g v m 0)]).
 
 (* EventWriter::write, one event after the other *)
-Fixpoint event_write (evs : list point) (cur : option estate) : list hdr :=
+Fixpoint event_write (evs : list cpoint) (cur : option cestate) : list hdr :=
   match evs with
   | [] => match cur with Some s => [finish_estate s] | None => [] end
   | e :: rest =>
-      let idx := p_idx e in let g := p_group e in let v := p_var e in let m := p_meas e in
+      let idx := cp_idx e in let g := cp_group e in let v := cp_var e in let m := cp_meas e in
       let fresh := fun (pre : list hdr) =>
                      let '(hs, s') := start_header idx g v m in
                      pre ++ hs ++ event_write rest (Some s') in
@@ -335,26 +335,26 @@ Fixpoint event_write (evs : list point) (cur : option estate) : list hdr :=
             if N.of_nat (length (es_items s)) =? 65535 then fresh [finish_estate s]
             else if uses_cto g v then
               match cto_diff (es_cto s) (event_time m) with
-              | Some d => event_write rest (Some (mk_estate g v (es_cto s) (es_items s ++ [(idx, event_bytes g v m d)])))
+              | Some d => event_write rest (Some (mk_cestate g v (es_cto s) (es_items s ++ [(idx, event_bytes g v m d)])))
               | None => fresh [finish_estate s]
               end
-            else event_write rest (Some (mk_estate g v (es_cto s) (es_items s ++ [(idx, event_bytes g v m 0)])))
+            else event_write rest (Some (mk_cestate g v (es_cto s) (es_items s ++ [(idx, event_bytes g v m 0)])))
           else fresh [finish_estate s]
       end
   end.
 
 (* a READ of a specific event variation rewrites the variation of every selected event *)
-Definition event_entry (req : N) (p : point) : point :=
-  if is_octets (p_group p) then mk_point (p_idx p) (p_group p) (N.of_nat (length (m_bytes (p_meas p)))) (p_meas p)
-  else if req =? 0 then p else mk_point (p_idx p) (p_group p) req (p_meas p).
+Definition event_entry (req : N) (p : cpoint) : cpoint :=
+  if is_octets (cp_group p) then mk_cpoint (cp_idx p) (cp_group p) (N.of_nat (length (cm_bytes (cp_meas p)))) (cp_meas p)
+  else if req =? 0 then p else mk_cpoint (cp_idx p) (cp_group p) req (cp_meas p).
 
-Definition write_events (req : N) (evs : list point) : list hdr :=
+Definition write_events (req : N) (evs : list cpoint) : list hdr :=
   event_write (map (event_entry req) evs) None.
 
 (* ---- master: parser of the object headers the two writers produce ---------------------------- *)
 Definition obj_size (g v : N) : option nat :=
   if is_octets g then Some (N.to_nat v)
-  else match find_recipe g v with Some r => Some (layout_size (r_layout r)) | None => None end.
+  else match find_recipe g v with Some r => Some (layout_size (rc_layout r)) | None => None end.
 
 Definition range_kind (g v : N) : write_kind :=
   match find_static g v with Some (_, k, _) => k | None => WkFixed end.
@@ -365,7 +365,7 @@ Fixpoint take_items (n : nat) (size : nat) (bs : list N) : option (list (N * lis
   | S k =>
       if (length bs <? 2 + size)%nat then None
       else match take_items k size (skipn (2 + size) bs) with
-           | Some (items, rest) => Some ((le_value (firstn 2 bs), firstn size (skipn 2 bs)) :: items, rest)
+           | Some (items, rest) => Some ((le_dec (firstn 2 bs), firstn size (skipn 2 bs)) :: items, rest)
            | None => None
            end
   end.
@@ -379,8 +379,8 @@ Fixpoint parse_go (fuel : nat) (bs : list N) : option (list hdr) :=
       | g :: v :: q :: rest =>
           if q =? 1 then
             if (length rest <? 4)%nat then None else
-            let start := le_value (firstn 2 rest) in
-            let stop := le_value (firstn 2 (skipn 2 rest)) in
+            let start := le_dec (firstn 2 rest) in
+            let stop := le_dec (firstn 2 (skipn 2 rest)) in
             let body := skipn 4 rest in
             if stop <? start then None else
             let count := stop - start + 1 in
@@ -401,7 +401,7 @@ Fixpoint parse_go (fuel : nat) (bs : list N) : option (list hdr) :=
             end
           else if q =? 40 then
             if (length rest <? 2)%nat then None else
-            let count := le_value (firstn 2 rest) in
+            let count := le_dec (firstn 2 rest) in
             match obj_size g v with
             | None => None
             | Some size =>
@@ -419,7 +419,7 @@ Fixpoint parse_go (fuel : nat) (bs : list N) : option (list hdr) :=
             | c :: rest1 =>
                 if (g =? 51) && ((v =? 1) || (v =? 2)) && (c =? 1) && (6 <=? length rest1)%nat then
                   match parse_go f (skipn 6 rest1) with
-                  | Some hs => Some (HCto v (le_value (firstn 6 rest1)) :: hs)
+                  | Some hs => Some (HCto v (le_dec (firstn 6 rest1)) :: hs)
                   | None => None
                   end
                 else None
@@ -437,7 +437,7 @@ Inductive otype := OT (t : mtype) | OOct.
 
 Inductive obs :=
 | OHdr (g v q : N) (is_event has_flags : bool)
-| OMeas (t : otype) (idx : N) (m : meas).
+| OMeas (t : otype) (idx : N) (m : cmeas).
 
 Definition find_info (tbl : list (N * N * mtype * bool * bool)) (g v : N) : option (mtype * bool * bool) :=
   match find (fun x => match x with (g', v', _, _, _) => (g' =? g) && (v' =? v) end) tbl with
@@ -466,13 +466,13 @@ Fixpoint number_from (start : N) {A} (l : list A) : list (N * A) :=
   match l with [] => [] | x :: r => (start, x) :: number_from (start + 1) r end.
 
 (* From<bool> / From<DoubleBit>: ONLINE, no time *)
-Definition packed_meas (b : N) : meas := mk_meas b online_flags None [].
+Definition packed_meas (b : N) : cmeas := mk_cmeas b online_flags None [].
 
 Definition extract_range (g v start stop : N) (payload : list N) : list obs :=
   let count := N.to_nat (stop - start + 1) in
   if g =? 110 then
     OHdr g v 1 false false ::
-    map (fun ib => OMeas OOct (fst ib) (mk_meas 0 0 None (snd ib)))
+    map (fun ib => OMeas OOct (fst ib) (mk_cmeas 0 0 None (snd ib)))
         (number_from start (chunks_of count (N.to_nat v) payload))
   else
   match find_info ranged_info g v with
@@ -486,14 +486,14 @@ Definition extract_range (g v start stop : N) (payload : list N) : list obs :=
           match find_recipe g v with
           | None => []
           | Some r => map (fun ib => OMeas (OT t) (fst ib) (decode_obj r None (snd ib)))
-                          (number_from start (chunks_of count (layout_size (r_layout r)) payload))
+                          (number_from start (chunks_of count (layout_size (rc_layout r)) payload))
           end
       end
   end.
 
 Definition extract_prefix (cto : option (tq * N)) (g v : N) (items : list (N * list N)) : list obs :=
   if g =? 111 then
-    OHdr g v 40 true false :: map (fun it => OMeas OOct (fst it) (mk_meas 0 0 None (snd it))) items
+    OHdr g v 40 true false :: map (fun it => OMeas OOct (fst it) (mk_cmeas 0 0 None (snd it))) items
   else
   match find_info prefixed_info g v, find_recipe g v with
   | Some (t, ie, hf), Some r =>
@@ -517,8 +517,8 @@ Definition master_side (bytes : list N) : option (list obs) :=
   | None => None
   end.
 
-Definition trip_static (s : selection) (pts : list point) : list N * option (list obs) :=
+Definition trip_static (s : selection) (pts : list cpoint) : list N * option (list obs) :=
   let bytes := serialize (write_static s pts) in (bytes, master_side bytes).
 
-Definition trip_event (req : N) (evs : list point) : list N * option (list obs) :=
+Definition trip_event (req : N) (evs : list cpoint) : list N * option (list obs) :=
   let bytes := serialize (write_events req evs) in (bytes, master_side bytes).
